@@ -92,6 +92,40 @@ def check_append_circuit(ctx: Ctx, fi: FuncInfo):
                 c,
             )
             builders[lst] = src[len(other) + 1:]
+    # the same as one comprehension: L = [(g, [qubits[ww] for ww in w], p) for g, w, p in other.X]
+    for n in walk_no_nested(fi.node):
+        if not (isinstance(n, ast.Assign) and len(n.targets) == 1 and isinstance(n.targets[0], ast.Name) and isinstance(n.value, ast.ListComp)):
+            continue
+        lc = n.value
+        if len(lc.generators) != 1 or not norm(lc.generators[0].iter).startswith(other + "."):
+            continue
+        gen = lc.generators[0]
+        src = norm(gen.iter)
+        lst = n.targets[0].id
+        if gen.ifs:
+            ctx.check(False, "MP-remap-all", fi, f"{src} -> {lst}: every record is carried over", "", f"`{norm(lc)[:80]}` drops the records that fail `{norm(gen.ifs[0])}`", n)
+            builders[lst] = src[len(other) + 1:]
+            continue
+        if not (isinstance(gen.target, ast.Tuple) and len(gen.target.elts) == 3 and isinstance(lc.elt, ast.Tuple) and len(lc.elt.elts) == 3):
+            continue
+        g, w, p = (norm(e) for e in gen.target.elts)
+        eg, ew, ep = lc.elt.elts
+        mapped = (
+            isinstance(ew, ast.ListComp)
+            and len(ew.generators) == 1
+            and norm(ew.generators[0].iter) == w
+            and not ew.generators[0].ifs
+            and isinstance(ew.elt, ast.Subscript)
+            and norm(ew.elt.value) == qubits
+            and norm(ew.elt.slice) == norm(ew.generators[0].target)
+        )
+        ctx.check(
+            mapped and norm(eg) == g and norm(ep) == p, "MP-remap-all", fi, f"{src} -> {lst}: every wire through {qubits}[...]",
+            f"({g}, [{qubits}[x] for x in {w}], {p})",
+            f"the gate record built for `{lst}` is `{norm(lc.elt)}`: each wire of the appended circuit must be translated through `{qubits}` and gate/parameter kept",
+            n,
+        )
+        builders[lst] = src[len(other) + 1:]
     if len(builders) < 2:
         raise AnchorError(fi.short, f"only {len(builders)} remapping loops found (gates and gates_computed confirmed by hand)")
     # what enters self.gates / self.gates_computed
@@ -117,7 +151,10 @@ def check_append_circuit(ctx: Ctx, fi: FuncInfo):
     if n_in < 2:
         raise AnchorError(fi.short, "gate lists of self are not extended")
     # size checks dominate
-    first_loop = q.for_loops(fi.node)[0]
+    building = [n for n in fi.body if isinstance(n, ast.For) or (isinstance(n, ast.Assign) and len(n.targets) == 1 and isinstance(n.targets[0], ast.Name) and n.targets[0].id in builders)]
+    if not building:
+        raise AnchorError(fi.short, "the statements that build the remapped lists are not top-level statements of append_circuit")
+    first_loop = building[0]
     facts = [(norm(e), pol) for e, pol in guard_facts(fi, first_loop)]
     ctx.check(any((not pol) and f == f"{other}.num_qubits > self.num_qubits" for f, pol in facts), "MP-remap-all", fi, "appended circuit fits", "raises when other is wider than self", f"no dominating size check (guards: {facts})", first_loop)
     ctx.check(any((not pol) and f == f"len({qubits}) != {other}.num_qubits" for f, pol in facts), "MP-remap-all", fi, "one target qubit per source qubit", "raises on length mismatch", f"no dominating length check (guards: {facts})", first_loop)
